@@ -5,8 +5,8 @@ FAMILY = "arch"
 PROPS = ["C13"]
 GEN_GROUPS = []
 
-PKGS = ["com.a", "com.a.b", "com.c", "org.x", "ab", "a", "bc", "c", "q.r.s.t.u.v.w.x", "q.r.s.t.u.v.w.y.z"]
-NAMES = ["Foo", "Bar", "Baz", "Main", "Svc", "Repo", "Util", "Ab", "B"]
+PKGS = ["com.a", "com.a.b", "com.c", "org.x", "ab", "a", "bc", "c", "q.r.s.t.u.v.w.x", "q.r.s.t.u.v.w.y.z", "org.graph"]
+NAMES = ["Foo", "Bar", "Baz", "Main", "Svc", "Repo", "Util", "Ab", "B", "Node", "Edge", "Graph"]     # (DOT keywords are ordinary Java names)
 
 
 def rand_model(rng):
